@@ -368,7 +368,16 @@ def check_A3(ctx, methods, config):
                 for el in (t.elts if isinstance(t, (ast.Tuple, ast.List)) else [t]):
                     if isinstance(el, ast.Attribute) and U(el.value) == 'self' and el.attr in config:
                         bad.setdefault(el.attr, []).append((fi, s))
+    loaded = {n.attr for fi in methods.values() for n in ast.walk(fi.node)
+              if isinstance(n, ast.Attribute) and isinstance(n.ctx, ast.Load) and U(n.value) == 'self'}
     for a in sorted(config):
+        if a in bad and a not in loaded:
+            # written (by the constructor and later) but never read by any method of the engine: a record kept for the caller, which no
+            # computation of a later call can depend on
+            for fi, s in bad[a]:
+                ctx.ob('A3-config-read-only', fi, s, True,
+                       'self.%s is re-assigned during %s, but no method of the engine ever reads it (a write-only record for the caller)' % (a, fi.name))
+            continue
         if a in bad:
             for fi, s in bad[a]:
                 ctx.ob('A3-config-read-only', fi, s, False,
